@@ -56,6 +56,15 @@ func (g *EvGen) nextLayout(ts int64) *Event {
 	if r.IntN(3) == 0 {
 		add("opt", w.scalar("opt", 's', []string{"a", "b"}[r.IntN(2)]))
 	}
+	// sparse numeric and sparse text columns (absent from most records): the value of the previous record
+	// must never stand in for a missing one, whichever path answers the query
+	if r.IntN(5) < 2 {
+		add("rc", w.scalar("rc", 'n', strconv.Itoa(r.IntN(5))))
+	}
+	if r.IntN(10) < 3 {
+		notes := []string{"escalated", "paged oncall", "escalated twice", "muted"}
+		add("note", w.scalar("note", 's', notes[r.IntN(len(notes))]))
+	}
 	raw := "{" + strings.Join(parts, ",") + "}"
 	return &Event{VID: vid, TS: ts, Flat: w.flat, Raw: json.RawMessage(raw)}
 }
@@ -80,6 +89,15 @@ var layoutQueries = []string{
 	`retry`,
 	`opt=a`,
 	`msg="disk full*"`,
+	`rc=3`,
+	`level=error AND rc>2`,
+	`rc>=1 AND code=200`,
+	`level=warn AND rc<2`,
+	`escalated`,
+	`code=200 AND escalated`,
+	`level=info AND note="paged oncall"`,
+	`code=200 AND opt=a`,
+	`rc>1 | stats count by level`,
 	`* | stats count by level`,
 	`* | stats count, sum(code), max(lat), min(lat) by host`,
 	`level=error | stats count, avg(lat) by code`,
